@@ -627,7 +627,7 @@ impl ProxyState {
             }
             self.note_randoms(&bytes);
             let dup = self.take_op(dir, &label, o, &["dup"]).is_some();
-            net_event("tx", json!({"dir": dir, "msg": label, "ord": o, "dup": dup}));
+            net_event("tx", json!({"dir": dir, "msg": label, "ord": o, "dup": dup, "recs": describe(&bytes)}));
             wire.push(bytes.clone());
             if dup {
                 wire.push(bytes);
@@ -637,7 +637,7 @@ impl ProxyState {
                 let mut keep = Vec::new();
                 for (k, b, l) in h.drain(..) {
                     if k <= 1 {
-                        net_event("release", json!({"dir": dir, "msg": l}));
+                        net_event("release", json!({"dir": dir, "msg": l, "recs": describe(&b)}));
                         wire.push(b);
                     } else {
                         keep.push((k - 1, b, l));
